@@ -848,15 +848,19 @@ Section DispatchProofs.
           not fault ---------------------------------------------------------------------------------- *)
   Definition no_fault (o : outcome val) : Prop := o <> OFault /\ o <> OPanic.
 
+  (* a constructor as the types package registers it: a built function; body i does not fault on the
+     argument lists its own declaration admits *)
   Definition ctor_ok (c : ctor ty val bty) : Prop :=
-    (exists dss, fn_built dss (fst c)) /\ forall i args, no_fault (snd c i args).
+    exists dss, fn_built dss (fst c) /\
+      forall i args ops, nth_error dss i = Some ops -> decl_matches args None ops = true -> no_fault (snd c i args).
 
   Lemma ctor_call_no_fault : forall c args, ctor_ok c -> len args < max_int64 ->
     no_fault (ctor_call inst binst c args).
   Proof.
-    intros c args [[dss Hb] Hbody] Hl. unfold ctor_call.
+    intros c args (dss & Hb & Hbody) Hl. unfold ctor_call.
     destruct (call_body_or_arg_error dss (fst c) args None Hb Hl) as [[i Hi]|Ha].
-    - rewrite Hi. apply Hbody.
+    - rewrite Hi. destruct (no_body_outside_decl dss (fst c) args None i Hb Hl Hi) as (ops & Hn & Hm).
+      eapply Hbody; eauto.
     - rewrite Ha. split; discriminate.
   Qed.
 
@@ -882,9 +886,9 @@ Section DispatchProofs.
     intros c ia args Hc Hl Harr. unfold init_create.
     assert (Hla : len args < max_int64) by (rewrite app_length in Hl; lia).
     destruct ia as [|x ia].
-    - destruct Hc as [[dss Hb] Hbody].
+    - destruct Hc as (dss & Hb & Hbody).
       rewrite (any_callable_some dss (fst c) args (fn_built_rel dss (fst c) args None Hb Hla)).
-      assert (Hc : ctor_ok c) by (split; eauto).
+      assert (Hc : ctor_ok c) by (exists dss; auto).
       destruct (existsb (decl_matches args None) dss); [apply ctor_call_no_fault; auto|].
       destruct args as [|a [|a' args]]; try (apply ctor_call_no_fault; auto).
       destruct (as_array a) as [vs|] eqn:Ha; apply ctor_call_no_fault; eauto.
@@ -929,4 +933,65 @@ Arguments fn_built {ty bty} dss ds.
 Arguments created_type {ty val} init_parts t.
 Arguments target {ty val} init_parts load_type r.
 Arguments no_fault {val} o.
-Arguments ctor_ok {ty val bty} c.
+Arguments ctor_ok {ty val bty blk} inst binst c.
+
+(* ================================================================================================
+   The Boolean constructor, modelled end to end (Model/Dispatch.v, booleantype.go:36-62)
+   ================================================================================================ *)
+Definition boolean_ds : list (dispatch pty N) := [mkD (mkSig 1 1 [boolean_param] None) true].
+
+Lemma boolean_built : build_function boolean_ops = inr boolean_ds.
+Proof. vm_compute. reflexivity. Qed.
+
+Lemma boolean_ctor_eq : boolean_ctor = Some (boolean_ds, boolean_body).
+Proof. unfold boolean_ctor. rewrite boolean_built. reflexivity. Qed.
+
+Lemma boolean_body_bool : forall i v r, exists b, boolean_body i (v :: r) = OVal (VBool b).
+Proof. intros i v r. destruct v; cbn [boolean_body]; eauto. Qed.
+
+Lemma boolean_ctor_ok : ctor_ok pinst no_block (boolean_ds, boolean_body).
+Proof.
+  exists boolean_ops. split.
+  - split; [exact boolean_built|]. split; repeat constructor.
+  - intros i args ops Hn Hm. cbn [snd].
+    destruct i as [|[|i]]; cbn in Hn; try discriminate. inversion Hn; subst ops.
+    destruct args as [|v r]; [vm_compute in Hm; discriminate|].
+    destruct (boolean_body_bool 0%nat v r) as [b Hb]. rewrite Hb. split; discriminate.
+Qed.
+
+Lemma boolean_call_none : call pinst no_block boolean_ds [] None = RArgError.
+Proof. vm_compute. reflexivity. Qed.
+
+Lemma boolean_call_one v :
+  call pinst no_block boolean_ds [v] None = if pinst boolean_param v then RBody 0 else RArgError.
+Proof.
+  unfold call, boolean_ds. cbn [call_from d_sig d_hasfn callable_with s_block].
+  unfold tuple_inst3. cbn [s_min s_max s_types length tuple_loop nth_error].
+  change (negb ((1 <=? Z.of_nat 1) && (Z.of_nat 1 <=? 1))) with false. cbn iota.
+  destruct (pinst boolean_param v); reflexivity.
+Qed.
+
+Lemma boolean_call_many v v' r : call pinst no_block boolean_ds (v :: v' :: r) None = RArgError.
+Proof.
+  unfold call, boolean_ds. cbn [call_from d_sig callable_with s_block].
+  unfold tuple_inst3. cbn [s_min s_max s_types].
+  assert (H : (Z.of_nat (length (v :: v' :: r)) <=? 1) = false) by (apply Z.leb_gt; cbn [length]; lia).
+  rewrite H, andb_false_r. reflexivity.
+Qed.
+
+(* Boolean.new(args...) yields a Boolean or the reported argument error — for every argument list *)
+Theorem boolean_new_total : forall args,
+  (exists b, pnew_modelled PBoolean args = OVal (VBool b)) \/ pnew_modelled PBoolean args = OErr EArg.
+Proof.
+  intros args.
+  assert (Hl : modelled_loader (pname PBoolean) = Some (boolean_ds, boolean_body)).
+  { unfold modelled_loader. replace (str_eqb (pname PBoolean) boolean_name) with true by reflexivity.
+    apply boolean_ctor_eq. }
+  unfold pnew_modelled, new_instance, new_typed. cbn [bind]. rewrite Hl. unfold ctor_call. cbn [fst snd].
+  destruct args as [|v [|v' r]].
+  - right. rewrite boolean_call_none. reflexivity.
+  - rewrite boolean_call_one. destruct (pinst boolean_param v).
+    + left. destruct (boolean_body_bool 0%nat v []) as [b Hb]. exists b. rewrite Hb. reflexivity.
+    + right. reflexivity.
+  - right. rewrite boolean_call_many. reflexivity.
+Qed.
